@@ -38,12 +38,20 @@ def concretize(v, lo, hi):
 
 
 def mk_iter_pool(kind, n, tier='quick'):
+    TAPE = 2 * (n + 1)   # two parallel runs, each needs ceil(log2 k) bits per scheduling choice
     def body(env, chunksize, max_workers, fail_at, **kw):
+        from vf import rt
+        chunksize = concretize(chunksize, 1, 2)
+        max_workers = concretize(max_workers, 1, 2)
+        fail_at = concretize(fail_at, -1, n - 1)
+        tape = [bool(kw[f'tape{i}']) for i in range(TAPE)]
+        return rt.untraced(lambda: run(env, chunksize, max_workers, fail_at, tape))
+
+    def run(env, chunksize, max_workers, fail_at, tape):
         sf = env.sf
-        install_tape(env, kw, n)
-        chunksize = concretize(chunksize, 1, n + 1)
-        max_workers = concretize(max_workers, 1, 3)
-        vals = [kw[f'v{i}'] for i in range(n)]
+        if env.model:
+            env.nondet.install(tape)
+        vals = [7 * (i + 1) for i in range(n)]      # distinct constants: values only flow through the tasks
         labels = [100 + i for i in range(n)]
 
         if kind == 'series_element':
@@ -63,6 +71,8 @@ def mk_iter_pool(kind, n, tier='quick'):
             try:
                 if parallel:
                     r = make().apply_pool(f, max_workers=max_workers, chunksize=chunksize, use_threads=True)
+                elif make is node_items:
+                    r = make().apply(lambda k, v: f((k, v)))   # sequential items form passes (label, value) as two arguments
                 else:
                     r = make().apply(f)
                 return [env.obs(r.index.values.tolist()), env.obs(r.values.tolist())]
@@ -74,16 +84,16 @@ def mk_iter_pool(kind, n, tier='quick'):
         failing = [i for i in range(n) if i == fail_at]
         ref = 'TaskError' if failing else [labels, [v * 2 + 1 for v in vals]]
         return [got, seq], [[ref, ref], [ref, ref]]
-    return Cond(f'apply_pool_{kind}_n{n}', [('chunksize', 'int'), ('max_workers', 'int'), ('fail_at', 'int')] + [(f'v{i}', 'int') for i in range(n)], body, tape=n,
-            ranges={'chunksize': (1, n + 1), 'max_workers': (1, 3), 'fail_at': (-1, n - 1)},
+    return Cond(f'apply_pool_{kind}_n{n}', [('chunksize', 'int'), ('max_workers', 'int'), ('fail_at', 'int')], body, tape=TAPE,
+            ranges={'chunksize': (1, 2), 'max_workers': (1, 2), 'fail_at': (-1, n - 1)},
             functions=['IterNodeDelegate._apply_iter_items_parallel', 'IterNodeDelegate.apply_pool'],
-            bounds=f'{n} items; cell values UNBOUNDED symbolic ints; chunksize 1..{n + 1}, max_workers 1..3, failing task index -1 (none)..{n - 1}, task completion order: symbolic permutation ({n}-entry tape)',
+            bounds=f'{n} items (constant distinct values); chunksize 1..2, max_workers 1..2, failing task index -1 (none)..{n - 1}, task completion order of both parallel runs: symbolic permutations ({TAPE} tape Booleans); all split by value, then executed concretely',
             route=f'{kind}: apply_pool(values and items forms) == apply == {{label: f(value)}}; a failing task raises out of the result', tier=tier, timeout=300)
 
 
 def _task(x, label, fail_at, vals):
     # the task fails for the item at position fail_at (identified by its value's position)
-    if fail_at >= 0 and x == vals[fail_at] and all(vals[j] != x for j in range(fail_at)):
+    if fail_at >= 0 and x == vals[fail_at]:   # values are pairwise distinct (precondition)
         raise TaskError()
     return x * 2 + 1
 
@@ -95,11 +105,17 @@ _add(mk_iter_pool('series_element', 4, tier='thorough'))
 
 def mk_batch(n, tier='quick'):
     def body(env, chunksize, max_workers, **kw):
-        sf = env.sf
-        install_tape(env, kw, n)
+        from vf import rt
         chunksize = concretize(chunksize, 1, 2)
-        max_workers = concretize(max_workers, 1, 3)
-        vals = [kw[f'v{i}'] for i in range(n)]
+        max_workers = concretize(max_workers, 1, 2)
+        tape = [bool(kw[f'tape{i}']) for i in range(2 * n)]
+        return rt.untraced(lambda: run(env, chunksize, max_workers, tape))
+
+    def run(env, chunksize, max_workers, tape):
+        sf = env.sf
+        if env.model:
+            env.nondet.install(tape)
+        vals = [7 * (i + 1) for i in range(n)]
         names = ['f%d' % i for i in range(n)]
         frames = [sf.Frame.from_items((('a', env.array([vals[i], vals[i] + 1], 'int64')),), name=names[i]) for i in range(n)]
 
@@ -110,10 +126,10 @@ def mk_batch(n, tier='quick'):
         got = [run(max_workers), run(None)]
         ref = [[names[i], [[vals[i] * 2 + 1], [(vals[i] + 1) * 2 + 1]]] for i in range(n)]
         return got, [ref, ref]
-    return Cond(f'batch_pool_n{n}', [('chunksize', 'int'), ('max_workers', 'int')] + [(f'v{i}', 'int') for i in range(n)], body, tape=2 * n,
-            ranges={'chunksize': (1, 2), 'max_workers': (1, 3)},
+    return Cond(f'batch_pool_n{n}', [('chunksize', 'int'), ('max_workers', 'int')], body, tape=2 * n,
+            ranges={'chunksize': (1, 2), 'max_workers': (1, 2)},
             functions=['Batch._apply_pool', 'Batch._apply_attr', 'Batch.apply'],
-            bounds=f'Batch of {n} frames with UNBOUNDED symbolic cells; chained operator and apply; chunksize 1..2, max_workers 1..3, completion order symbolic',
+            bounds=f'Batch of {n} frames (constant cells); chained operator and apply; chunksize 1..2, max_workers 1..2, completion order symbolic ({2 * n} tape Booleans)',
             route='Batch(max_workers=k) chained operations == Batch(max_workers=None) == per-label application', tier=tier, timeout=300)
 
 
@@ -122,11 +138,18 @@ _add(mk_batch(3, tier='thorough'))
 
 
 def body_batch_except(env, fail_at, max_workers, **kw):
-    sf = env.sf
-    install_tape(env, kw, 3)
-    max_workers = concretize(max_workers, 1, 3)
+    from vf import rt
+    max_workers = concretize(max_workers, 1, 2)
     fail_at = concretize(fail_at, -1, 2)
-    vals = [kw[f'v{i}'] for i in range(3)]
+    tape = [bool(kw[f'tape{i}']) for i in range(4)]
+    return rt.untraced(lambda: run_batch_except(env, fail_at, max_workers, tape))
+
+
+def run_batch_except(env, fail_at, max_workers, tape):
+    sf = env.sf
+    if env.model:
+        env.nondet.install(tape)
+    vals = [7, 14, 21]
     names = ['f0', 'f1', 'f2']
     frames = [sf.Frame.from_items((('a', env.array([vals[i]], 'int64')),), name=names[i]) for i in range(3)]
 
@@ -142,8 +165,8 @@ def body_batch_except(env, fail_at, max_workers, **kw):
     return [run(max_workers), run(None)], [ref, ref]
 
 
-_add(Cond('batch_apply_except', [('fail_at', 'int'), ('max_workers', 'int'), ('v0', 'int'), ('v1', 'int'), ('v2', 'int')], body_batch_except, tape=3,
-        ranges={'fail_at': (-1, 2), 'max_workers': (1, 3)},
+_add(Cond('batch_apply_except', [('fail_at', 'int'), ('max_workers', 'int')], body_batch_except, tape=4,
+        ranges={'fail_at': (-1, 2), 'max_workers': (1, 2)},
         functions=['Batch._apply_pool_except', 'Batch.apply_except'],
         bounds='Batch of 3 frames, failing task index -1..2, max_workers 1..3, completion order symbolic',
         route='Batch.apply_except: the failing label is dropped, every other result stays paired with its own label', timeout=300))
